@@ -47,6 +47,8 @@ package types
 //@   houdini
 //@   requires m != nil
 //@   modifies *m, type Stat, array byte, array string, maps string []byte
+//@   loop 0 invariant noalias: (ref(m.Data) == old(ref(m.Data)) || fresh(m.Data)) && (ref(m.unknownFields) == old(ref(m.unknownFields)) || fresh(m.unknownFields))
+//@   ensures payload_copied_out_of_the_input: (ref(m.Data) == old(ref(m.Data)) || fresh(m.Data)) && (ref(m.unknownFields) == old(ref(m.unknownFields)) || fresh(m.unknownFields))
 //@   posteffect DecodedCopying()
 
 //@ func Stat.UnmarshalVT
@@ -56,3 +58,12 @@ package types
 //@   requires m != nil
 //@   modifies *m, array byte, array string, m.Xattrs[*]
 //@   loop 0 invariant xattrs_own: m.Xattrs == old(m.Xattrs) || fresh(m.Xattrs)
+
+// the exported entry points use the copying decoder (never the Unsafe variant,
+// whose results alias the caller's buffer)
+//@ func Packet.Unmarshal
+//@   property C20
+//@   requires p != nil
+//@   modifies *p, type Stat, array byte, array string, maps string []byte
+//@   effects DecodedCopying
+//@   ensures copying_decoder: cnt(DecodedCopying) == old(cnt(DecodedCopying)) + 1
